@@ -420,19 +420,22 @@ Section Proofs.
       (exists rest, acc = concat starts ++ rest) /\
       (w_failed W = false -> acc = concat starts ++ queued (w_buffers W) /\ nf = 0) /\
       (* the fail callback fired exactly once iff the writer failed *)
-      (w_failed W = true -> nf = 1).
+      (w_failed W = true -> nf = 1) /\
+      (* the queue invariant holds at the end: the per-operation theorems apply to W again *)
+      winv W.
   Proof.
     intros ops W0 H0 H. destruct (init_winv _ _ H0) as (I0 & B0 & F0).
     assert (G0 : ghost_ok W0 [] [] 0).
     { unfold ghost_ok. rewrite F0, B0. repeat split; auto; discriminate. }
     destruct (writer_history_gen ops W0 [] [] 0 I0 G0 H) as (W & starts & acc & nf & E & I & (Gn & Gf & Gs)).
     exists W, starts, acc, nf. split; [exact E|]. split; [exact Gs|].
-    split; [|split].
+    split; [|split; [|split]].
     - destruct (w_failed W) eqn:Ef.
       + destruct (Gf eq_refl) as (_ & rest & A). eauto.
       + destruct (Gn eq_refl) as (A & _). eauto.
     - intros Hf. destruct (Gn Hf) as (A & B). auto.
     - intros Hf. apply (Gf Hf).
+    - exact I.
   Qed.
 
   (* after the first failure: nothing more is handed to network_write, no second fail callback,
@@ -532,5 +535,372 @@ Example writer_history_nonvacuous :
 Proof.
   cbn zeta. split.
   - vm_compute. repeat split; try reflexivity; eexists; split; try reflexivity; vm_compute; lia.
+  - eexists. vm_compute. split; reflexivity.
+Qed.
+
+(* ---------------------------------------------------------------- the queue drains; completions are paired with starts *)
+Section Progress.
+  Variable wbuflen : nat.
+
+  (* what poke does to the buffer in flight *)
+  Lemma poke_curr W netw W' rc evs :
+    winv W -> poke W netw = Ok (W', rc, evs) ->
+    (evs = [] /\ w_curr W' = w_curr W /\ w_inflight W' = w_inflight W) \/
+    (exists WB, evs = [EvStart (wb_data WB)] /\ w_curr W = None /\ w_curr W' = Some WB /\ netw = true /\
+                w_failed W = false).
+  Proof.
+    intros (Hb & Hc & Hf & Hr). unfold poke.
+    destruct (w_inflight W) eqn:Ei; cbn [orb].
+    { intros H; inversion H; subst. left; auto. }
+    destruct (w_buffers W) as [|b0 r0] eqn:Eb.
+    { intros H; inversion H; subst. left; auto. }
+    destruct (w_failed W) eqn:Ef.
+    { intros H; inversion H; subst. left; auto. }
+    destruct (w_curr W) as [WB|] eqn:Ec; [discriminate|].
+    destruct (discard_empty (b0 :: r0)) as [|WB rest].
+    { intros H; inversion H; subst. left; cbn; auto. }
+    destruct (length (wb_data WB) =? 0); [discriminate|].
+    destruct netw; cbn [negb]; intros H; inversion H; subst.
+    - right. exists WB. cbn. auto.
+    - left; cbn; auto.
+  Qed.
+
+  (* with a transport that accepts the write, poke leaves either a write in flight or no data queued *)
+  Lemma poke_drains W W' rc evs :
+    winv W -> w_failed W = false -> poke W true = Ok (W', rc, evs) ->
+    w_inflight W' = true \/ queued (w_buffers W') = [].
+  Proof.
+    intros (Hb & Hc & Hf & Hr) Hnf. unfold poke. rewrite Hnf.
+    destruct (w_inflight W) eqn:Ei; cbn [orb].
+    { intros H; inversion H; subst. left; exact Ei. }
+    destruct (w_buffers W) as [|b0 r0] eqn:Eb.
+    { intros H; inversion H; subst. right. rewrite Eb. reflexivity. }
+    destruct (w_curr W) as [WB|] eqn:Ec; [discriminate|].
+    destruct (discard_empty (b0 :: r0)) as [|WB rest].
+    { intros H; inversion H; subst. right. reflexivity. }
+    destruct (length (wb_data WB) =? 0); [discriminate|].
+    cbn [negb]. intros H; inversion H; subst. left. reflexivity.
+  Qed.
+
+  (* netbuf_write_consume is poke on the writer with the bytes appended and the reservation cleared *)
+  Lemma consume_as_poke W bytes netw WB :
+    winv W -> w_reserved W = true -> last_buf W = Some WB -> length bytes <= room WB ->
+    exists W1, winv W1 /\ w_failed W1 = w_failed W /\ w_inflight W1 = w_inflight W /\
+               w_curr W1 = w_curr W /\ w_reserved W1 = false /\ consume W bytes netw = poke W1 netw.
+  Proof.
+    intros (Hb & Hc & Hf & Hr) Hres El Hroom. unfold consume, consume_gen. rewrite Hres, El. cbn [negb].
+    destruct (room WB <? length bytes) eqn:E; [apply Nat.ltb_lt in E; lia|].
+    destruct (last_buf_some _ _ El) as (bs & Ebs).
+    exists (mkW false (w_failed W)
+                (if w_failed W then w_buffers W else append_last (w_buffers W) bytes)
+                (w_inflight W) (w_curr W)).
+    split; [|repeat split; reflexivity].
+    unfold winv; cbn [w_buffers w_curr w_inflight w_failed w_reserved].
+    split; [|split; [exact Hc|split; [exact Hf|discriminate]]].
+    destruct (w_failed W); [exact Hb|]. rewrite Ebs, append_last_app.
+    rewrite Ebs in Hb. apply Forall_app in Hb. destruct Hb as (H1 & H2). inversion H2; subst.
+    apply Forall_app. split; [exact H1|]. constructor; [|constructor].
+    unfold buf_ok, room in *; cbn. rewrite app_length. lia.
+  Qed.
+
+  Lemma wstep_winv W op :
+    winv W -> wenv_ok W op -> exists W' rc evs, wstep wbuflen W op = Ok (W', rc, evs) /\ winv W'.
+  Proof.
+    intros I E.
+    assert (G : ghost_ok W [] (queued (w_buffers W)) (if w_failed W then 1 else 0)).
+    { unfold ghost_ok. destruct (w_failed W).
+      - split; [discriminate|]. split; [|constructor]. intros _. split; [reflexivity|]. eexists. reflexivity.
+      - split; [intros _; split; reflexivity|]. split; [discriminate|constructor]. }
+    destruct (wstep_ok wbuflen W op _ _ _ I G E) as (W' & rc & evs & Es & I' & _). eauto.
+  Qed.
+
+  (* ---- what one operation does to the buffer in flight *)
+  Lemma wstep_curr W op W' rc evs :
+    winv W -> wenv_ok W op -> wstep wbuflen W op = Ok (W', rc, evs) ->
+    match op with
+    | WoDone v _ =>
+      exists WB0, w_curr W = Some WB0 /\ w_failed W = false /\
+        if (v =? Z.of_nat (length (wb_data WB0)))%Z
+        then w_failed W' = false /\
+             ((evs = [] /\ w_curr W' = None) \/ (exists WB, evs = [EvStart (wb_data WB)] /\ w_curr W' = Some WB))
+        else evs = [EvFail] /\ w_curr W' = None /\ w_failed W' = true
+    | _ =>
+      w_failed W' = w_failed W /\
+      ((evs = [] /\ w_curr W' = w_curr W) \/
+       (exists WB, evs = [EvStart (wb_data WB)] /\ w_curr W = None /\ w_failed W = false /\ w_curr W' = Some WB))
+    end.
+  Proof.
+    intros I E H. destruct op as [bytes a1 a2 netw|len a1 a2|bytes netw|v netw]; cbn [wenv_ok wstep] in *.
+    - destruct (write_ok wbuflen W bytes a1 a2 netw I E) as (W2 & rc2 & evs2 & Ew & _ & F' & _).
+      rewrite H in Ew. inversion Ew; subst W2 rc2 evs2. split; [exact F'|].
+      unfold write, write_gen in H. destruct (w_failed W) eqn:Ef.
+      { inversion H; subst. left; auto. }
+      destruct (reserve_ok wbuflen W (length bytes) a1 a2 I E) as (W1 & ok & Er & I1 & F1 & In1 & C1 & Q1 & Hok & Hno).
+      fold (reserve wbuflen W (length bytes) a1 a2) in H. rewrite Er in H. destruct ok.
+      + destruct (Hok eq_refl) as (R1 & WB & El & Hroom).
+        destruct (consume_as_poke W1 bytes netw WB I1 R1 El Hroom) as (W1' & I1' & Fa & Ia & Ca & Ra & Ep).
+        fold (consume W1 bytes netw) in H. rewrite Ep in H.
+        destruct (poke_curr W1' netw W' rc evs I1' H) as [(A & B & _)|(WB' & A & B & C & _ & D)].
+        * left. split; [exact A|congruence].
+        * right. exists WB'. repeat split; auto; congruence.
+      + inversion H; subst. left. rewrite (Hno eq_refl). auto.
+    - destruct (reserve_ok wbuflen W len a1 a2 I E) as (W1 & ok & Er & I1 & F1 & In1 & C1 & _).
+      rewrite Er in H. inversion H; subst. split; [exact F1|]. left; auto.
+    - destruct E as (Hres & WB & El & Hroom).
+      destruct (consume_ok W bytes netw WB I Hres El Hroom) as (W2 & rc2 & evs2 & Ec & _ & F' & _).
+      rewrite H in Ec. inversion Ec; subst W2 rc2 evs2. split; [exact F'|].
+      destruct (consume_as_poke W bytes netw WB I Hres El Hroom) as (W1' & I1' & Fa & Ia & Ca & Ra & Ep).
+      rewrite Ep in H.
+      destruct (poke_curr W1' netw W' rc evs I1' H) as [(A & B & _)|(WB' & A & B & C & _ & D)].
+      + left. split; [exact A|congruence].
+      + right. exists WB'. repeat split; auto; congruence.
+    - destruct E as (Hi & Hres). destruct I as (Hb & Hc & Hf & Hr).
+      unfold writbuf, writbuf_gen in H. rewrite Hres, Hi in H. cbn [negb] in H.
+      destruct (w_curr W) as [WB|] eqn:Ec; [|destruct Hc; congruence].
+      destruct (w_failed W) eqn:Ef; [specialize (Hf eq_refl); congruence|].
+      exists WB. split; [reflexivity|]. split; [reflexivity|].
+      destruct (v =? Z.of_nat (length (wb_data WB)))%Z; cbn [negb] in H.
+      + set (W1 := mkW false false (w_buffers W) false None) in *.
+        assert (I1 : winv W1) by (unfold winv, W1; cbn; repeat split; auto; discriminate).
+        destruct (poke_ok W1 netw I1 eq_refl) as (W2 & rc2 & evs2 & Ep & _ & F' & _).
+        rewrite H in Ep. inversion Ep; subst W2 rc2 evs2. split; [exact F'|].
+        destruct (poke_curr W1 netw W' rc evs I1 H) as [(A & B & _)|(WB' & A & B & C & _)].
+        * left. auto.
+        * right. exists WB'. auto.
+      + inversion H; subst. cbn. auto.
+  Qed.
+
+  (* ---- (a) the queue drains *)
+  (* the transport never refuses and never fails: every network_write can be started and every
+     completion reports the whole length of the buffer it completes (the one in flight) *)
+  Definition transport_good (W : nbw) (op : wop) : Prop :=
+    match op with
+    | WoWrite _ _ _ netw => netw = true
+    | WoReserve _ _ _ => True
+    | WoConsume _ netw => netw = true
+    | WoDone v netw => netw = true /\ exists WB, w_curr W = Some WB /\ v = Z.of_nat (length (wb_data WB))
+    end.
+
+  Fixpoint thist_good (W : nbw) (ops : list wop) : Prop :=
+    match ops with
+    | [] => True
+    | op :: r =>
+      transport_good W op /\ match wstep wbuflen W op with Ok (W', _, _) => thist_good W' r | _ => True end
+    end.
+
+  Definition dinv (W : nbw) : Prop :=
+    w_failed W = false /\ (w_inflight W = false -> queued (w_buffers W) = []).
+
+  Lemma wstep_drains W op W' rc evs :
+    winv W -> dinv W -> wenv_ok W op -> transport_good W op ->
+    wstep wbuflen W op = Ok (W', rc, evs) -> dinv W'.
+  Proof.
+    intros I (Dn & Dq) E T H.
+    destruct op as [bytes a1 a2 netw|len a1 a2|bytes netw|v netw]; cbn [wenv_ok wstep transport_good] in *.
+    - subst netw. unfold write, write_gen in H. rewrite Dn in H.
+      destruct (reserve_ok wbuflen W (length bytes) a1 a2 I E) as (W1 & ok & Er & I1 & F1 & In1 & C1 & Q1 & Hok & Hno).
+      fold (reserve wbuflen W (length bytes) a1 a2) in H. rewrite Er in H. destruct ok.
+      + destruct (Hok eq_refl) as (R1 & WB & El & Hroom).
+        destruct (consume_as_poke W1 bytes true WB I1 R1 El Hroom) as (W1' & I1' & Fa & Ia & Ca & Ra & Ep).
+        fold (consume W1 bytes true) in H. rewrite Ep in H.
+        assert (Fn : w_failed W1' = false) by congruence.
+        destruct (poke_ok W1' true I1' Ra) as (W2 & rc2 & evs2 & Ep2 & _ & F' & _).
+        rewrite H in Ep2. inversion Ep2; subst W2 rc2 evs2.
+        split; [congruence|]. destruct (poke_drains W1' W' rc evs I1' Fn H); [congruence|auto].
+      + inversion H; subst. rewrite (Hno eq_refl). split; assumption.
+    - destruct (reserve_ok wbuflen W len a1 a2 I E) as (W1 & ok & Er & I1 & F1 & In1 & C1 & Q1 & _).
+      rewrite Er in H. inversion H; subst. split; [congruence|]. rewrite In1, Q1. exact Dq.
+    - subst netw. destruct E as (Hres & WB & El & Hroom).
+      destruct (consume_as_poke W bytes true WB I Hres El Hroom) as (W1' & I1' & Fa & Ia & Ca & Ra & Ep).
+      rewrite Ep in H. assert (Fn : w_failed W1' = false) by congruence.
+      destruct (poke_ok W1' true I1' Ra) as (W2 & rc2 & evs2 & Ep2 & _ & F' & _).
+      rewrite H in Ep2. inversion Ep2; subst W2 rc2 evs2.
+      split; [congruence|]. destruct (poke_drains W1' W' rc evs I1' Fn H); [congruence|auto].
+    - destruct T as (-> & WB & Ec & ->). destruct E as (Hi & Hres). destruct I as (Hb & Hc & Hf & Hr).
+      unfold writbuf, writbuf_gen in H. rewrite Hres, Hi, Ec, Dn, Z.eqb_refl in H. cbn [negb] in H.
+      set (W1 := mkW false false (w_buffers W) false None) in *.
+      assert (I1 : winv W1) by (unfold winv, W1; cbn; repeat split; auto; discriminate).
+      destruct (poke_ok W1 true I1 eq_refl) as (W2 & rc2 & evs2 & Ep2 & _ & F' & _).
+      rewrite H in Ep2. inversion Ep2; subst W2 rc2 evs2.
+      split; [exact F'|]. destruct (poke_drains W1 W' rc evs I1 eq_refl H); [congruence|auto].
+  Qed.
+
+  Lemma writer_drains_gen : forall ops W starts acc nf,
+    winv W -> dinv W -> whist_ok wbuflen W ops -> thist_good W ops ->
+    forall W' s' a' n', wrun wbuflen W starts acc nf ops = Ok (W', s', a', n') -> dinv W'.
+  Proof.
+    induction ops as [|op r IH]; intros W starts acc nf I D H T W' s' a' n' E.
+    - cbn in E. inversion E; subst. exact D.
+    - cbn [whist_ok thist_good wrun] in *. destruct H as (Eo & H). destruct T as (To & T).
+      destruct (wstep_winv W op I Eo) as (W1 & rc & evs & Es & I1). rewrite Es in H, T, E.
+      eapply IH; [exact I1| |exact H|exact T|exact E].
+      exact (wstep_drains W op W1 rc evs I D Eo To Es).
+  Qed.
+
+  (* C07 "the whole of it when the transport never fails", liveness half: from a fresh writer,
+     along every history in which the transport accepts every network_write and completes each
+     with its whole length, the writer never fails, and whenever no write is in flight nothing is
+     queued: everything accepted has been handed to network_write *)
+  Theorem writer_drains_lemma : forall ops W0,
+    nbw_init true = Some W0 -> whist_ok wbuflen W0 ops -> thist_good W0 ops ->
+    exists W starts acc nf,
+      wrun wbuflen W0 [] [] 0 ops = Ok (W, starts, acc, nf) /\
+      w_failed W = false /\ nf = 0 /\
+      (w_inflight W = false -> queued (w_buffers W) = [] /\ acc = concat starts).
+  Proof.
+    intros ops W0 H0 H T. destruct (init_winv _ _ H0) as (I0 & B0 & F0).
+    destruct (writer_history_lemma wbuflen ops W0 H0 H) as (W & starts & acc & nf & E & _ & _ & Hn & _).
+    assert (D0 : dinv W0) by (split; [exact F0|intros _; rewrite B0; reflexivity]).
+    destruct (writer_drains_gen ops W0 [] [] 0 I0 D0 H T W starts acc nf E) as (Dn & Dq).
+    exists W, starts, acc, nf. split; [exact E|]. split; [exact Dn|].
+    destruct (Hn Dn) as (A & B). split; [exact B|].
+    intros Hi. split; [exact (Dq Hi)|]. rewrite A, (Dq Hi). apply app_nil_r.
+  Qed.
+
+  (* ---- (b) every completion belongs to the start it completes *)
+  (* completions that report the whole length of the buffer in flight *)
+  Definition full_done (W : nbw) (op : wop) : nat :=
+    match op with
+    | WoDone v _ =>
+      match w_curr W with
+      | Some WB => if (v =? Z.of_nat (length (wb_data WB)))%Z then 1 else 0
+      | None => 0
+      end
+    | _ => 0
+    end.
+
+  Fixpoint wrun_done (W : nbw) (ops : list wop) : nat :=
+    match ops with
+    | [] => 0
+    | op :: r =>
+      match wstep wbuflen W op with
+      | Ok (W', _, _) => full_done W op + wrun_done W' r
+      | _ => 0
+      end
+    end.
+
+  (* nd completions in full so far: the buffer in flight is the (nd+1)-th and last one handed to
+     network_write; with nothing in flight all nd were completed, unless the writer failed, which
+     it did on the last one *)
+  Definition paired (W : nbw) (starts : list (list N)) (nd : nat) : Prop :=
+    match w_curr W with
+    | Some WB => length starts = S nd /\ nth nd starts [] = wb_data WB /\ w_failed W = false
+    | None => if w_failed W then length starts = S nd else length starts = nd
+    end.
+
+  Lemma wstep_paired W op W' rc evs starts nd :
+    winv W -> wenv_ok W op -> paired W starts nd -> wstep wbuflen W op = Ok (W', rc, evs) ->
+    paired W' (starts ++ starts_of evs) (nd + full_done W op).
+  Proof.
+    intros I E P H. pose proof (wstep_curr W op W' rc evs I E H) as C.
+    unfold paired in *.
+    destruct op as [bytes a1 a2 netw|len a1 a2|bytes netw|v netw]; cbn [full_done].
+    1,2,3: destruct C as (F' & [(-> & Cc)|(WB & -> & Cn & Fn & Cc)]);
+      [ cbn [starts_of flat_map]; rewrite app_nil_r, Nat.add_0_r, Cc, F'; exact P
+      | rewrite Cc, Cn, Fn in *; cbn [starts_of flat_map app]; rewrite app_length, Nat.add_0_r; cbn [length];
+        rewrite app_nth2 by lia; replace (nd - length starts) with 0 by lia; cbn;
+        repeat split; auto; try lia; congruence ].
+    destruct C as (WB0 & Ec & Fn & C). rewrite Ec, Fn in *. destruct P as (Pl & Pn & _).
+    destruct (v =? Z.of_nat (length (wb_data WB0)))%Z.
+    - destruct C as (F' & [(-> & Cc)|(WB & -> & Cc)]); rewrite Cc, ?F'.
+      + cbn [starts_of flat_map]. rewrite app_nil_r. lia.
+      + cbn [starts_of flat_map app]. rewrite app_length. cbn [length].
+        rewrite app_nth2 by lia. replace (nd + 1 - length starts) with 0 by lia. cbn.
+        repeat split; auto; lia.
+    - destruct C as (-> & Cc & F'). rewrite Cc, F'. cbn [starts_of flat_map]. rewrite app_nil_r. lia.
+  Qed.
+
+  Lemma writer_paired_gen : forall ops W starts acc nf nd,
+    winv W -> paired W starts nd -> whist_ok wbuflen W ops ->
+    forall W' s' a' n', wrun wbuflen W starts acc nf ops = Ok (W', s', a', n') ->
+    paired W' s' (nd + wrun_done W ops).
+  Proof.
+    induction ops as [|op r IH]; intros W starts acc nf nd I P H W' s' a' n' E.
+    - cbn in *. inversion E; subst. rewrite Nat.add_0_r. exact P.
+    - cbn [whist_ok wrun wrun_done] in *. destruct H as (Eo & H).
+      destruct (wstep_winv W op I Eo) as (W1 & rc & evs & Es & I1). rewrite Es in H, E. rewrite Es.
+      rewrite Nat.add_assoc.
+      eapply IH; [exact I1| |exact H|exact E].
+      exact (wstep_paired W op W1 rc evs starts nd I Eo P Es).
+  Qed.
+
+  (* From a fresh writer, along every history: a completion is compared with the length of THE
+     buffer in flight, which is the last buffer handed to network_write; nd = number of
+     completions so far that reported that whole length.  Then exactly the first nd buffers have
+     been completed in full, at most one more has been handed over (in flight, or the one whose
+     completion failed the writer), and nothing is handed over after a failure. *)
+  Theorem writer_paired_lemma : forall ops W0,
+    nbw_init true = Some W0 -> whist_ok wbuflen W0 ops ->
+    exists W starts acc nf,
+      wrun wbuflen W0 [] [] 0 ops = Ok (W, starts, acc, nf) /\
+      paired W starts (wrun_done W0 ops) /\
+      wrun_done W0 ops <= length starts <= S (wrun_done W0 ops).
+  Proof.
+    intros ops W0 H0 H. destruct (init_winv _ _ H0) as (I0 & B0 & F0).
+    destruct (writer_history_lemma wbuflen ops W0 H0 H) as (W & starts & acc & nf & E & _).
+    assert (P0 : paired W0 [] 0).
+    { unfold nbw_init in H0. inversion H0; subst. reflexivity. }
+    pose proof (writer_paired_gen ops W0 [] [] 0 0 I0 P0 H W starts acc nf E) as P. cbn [Nat.add] in P.
+    exists W, starts, acc, nf. split; [exact E|]. split; [exact P|].
+    unfold paired in P. destruct (w_curr W); [destruct P as (A & _); lia|destruct (w_failed W); lia].
+  Qed.
+
+  (* composition with C06-M2 without an assumed shape of the wire: the first nd buffers were
+     completed in full, so all their bytes were handed to send; of the one after them (if any:
+     in flight, or failed) C06-M2 says a prefix p was.  That wire is a prefix of the accepted bytes. *)
+  Theorem writer_wire_prefix_lemma : forall ops W0,
+    nbw_init true = Some W0 -> whist_ok wbuflen W0 ops ->
+    exists W starts acc nf,
+      wrun wbuflen W0 [] [] 0 ops = Ok (W, starts, acc, nf) /\
+      let nd := wrun_done W0 ops in
+      forall p q, (nd < length starts -> nth nd starts [] = p ++ q) ->
+        exists rest, acc = (concat (firstn nd starts) ++ (if nd <? length starts then p else [])) ++ rest.
+  Proof.
+    intros ops W0 H0 H.
+    destruct (init_winv _ _ H0) as (I0 & B0 & F0).
+    destruct (writer_history_lemma wbuflen ops W0 H0 H) as (W & starts & acc & nf & E & _ & (rest & Ha) & _).
+    assert (P0 : paired W0 [] 0).
+    { unfold nbw_init in H0. inversion H0; subst. reflexivity. }
+    pose proof (writer_paired_gen ops W0 [] [] 0 0 I0 P0 H W starts acc nf E) as P. cbn [Nat.add] in P.
+    assert (Hle : wrun_done W0 ops <= length starts).
+    { unfold paired in P. destruct (w_curr W); [destruct P as (A & _); lia|destruct (w_failed W); lia]. }
+    exists W, starts, acc, nf. split; [exact E|]. cbn zeta. intros p q Hp.
+    destruct (wrun_done W0 ops <? length starts) eqn:Lt.
+    - apply Nat.ltb_lt in Lt.
+      apply (wire_is_prefix_of_accepted_lemma starts acc rest (wrun_done W0 ops) p q _ Ha).
+      left. auto.
+    - apply Nat.ltb_ge in Lt.
+      apply (wire_is_prefix_of_accepted_lemma starts acc rest 0 [] [] _ Ha).
+      right. rewrite firstn_all2 by lia. apply app_nil_r.
+  Qed.
+
+  (* chainable form of failed_is_sticky: the invariant is kept, so the statement applies again *)
+  Theorem failed_is_sticky_inv_lemma W op :
+    winv W -> w_failed W = true -> wenv_ok W op ->
+    exists W' rc, wstep wbuflen W op = Ok (W', rc, []) /\ winv W' /\ w_failed W' = true /\
+      match op with WoWrite _ _ _ _ => W' = W /\ rc = 0%Z | _ => True end.
+  Proof.
+    intros I Hf E.
+    destruct (failed_is_sticky_lemma wbuflen W op I Hf E) as (W' & rc & Es & F' & M).
+    destruct (wstep_winv W op I E) as (W2 & rc2 & evs2 & Es2 & I2).
+    rewrite Es in Es2. inversion Es2; subst. exists W2, rc2. auto.
+  Qed.
+End Progress.
+
+(* non-vacuity: a history with a zero-length write, a buffer above WBUFLEN and queued buffers satisfies
+   whist_ok and thist_good, and ends drained *)
+Example writer_drains_nonvacuous :
+  let W0 := mkW false false [] false None in
+  let ops := [WoWrite [1;2;3]%N true true true; WoWrite [4]%N true true true;
+              WoReserve 5000 true true; WoConsume [5;6]%N true; WoDone 3%Z true;
+              WoWrite [] true true true; WoDone 1%Z true; WoDone 2%Z true] in
+  whist_ok 4096 W0 ops /\ thist_good 4096 W0 ops /\ wrun_done 4096 W0 ops = 3 /\
+  exists W, wrun 4096 W0 [] [] 0 ops = Ok (W, [[1;2;3]; [4]; [5;6]]%N, [1;2;3;4;5;6]%N, 0) /\
+            w_inflight W = false.
+Proof.
+  cbn zeta. split; [|split; [|split]].
+  - vm_compute. repeat split; try reflexivity; eexists; split; try reflexivity; vm_compute; lia.
+  - vm_compute. repeat split; try reflexivity; eexists; split; reflexivity.
+  - vm_compute. reflexivity.
   - eexists. vm_compute. split; reflexivity.
 Qed.
